@@ -49,7 +49,7 @@ ub('C02.kd_signed_dec', 'C02/kdsigned.cc', 'h_kd_signed_dec', unwind=6, max_allo
 ub('C02.texcoords_dec', 'C02/texdec.cc', 'h_texcoords_dec', unwind=40, max_alloc=64, timeout=1500, backend='kissat', tier='thorough', known='F12',
    bound='1 face / 3 entries, ANY int32 positions and UV values, any data order and orientation flag',
    covers='MeshPredictionSchemeTexCoordsPortablePredictor::ComputePredictedValue<false>, GetPositionForEntryId, GetTexCoordForEntryId, VectorD arithmetic, IntSqrt')
-ub('C02.geom_normal_pred', 'C02/geomdec.cc', 'h_geom_normal_pred', unwind=12, max_alloc=64, timeout=900, backend='kissat', tier='quick', known='F13',
+ub('C02.geom_normal_pred', 'C02/geomdec.cc', 'h_geom_normal_pred', unwind=12, max_alloc=64, timeout=900, backend='kissat', tier='quick', known='F13', exclude_define='SMALL_POSITIONS',
    bound='1 triangle, ANY int32 positions, both prediction modes',
    covers='MeshPredictionSchemeGeometricNormalPredictorArea::ComputePredictedValue, GetPositionForCorner, CrossProduct, VectorD::AbsSum, VertexCornersIterator')
 ub('C02.seq_int_values', 'C02/seqint.cc', 'h_seq_int_values', unwind=14, max_alloc=256, defines={'VERIF_SMALL_ALLOC': 32, 'NENT': 1, 'NB': 12}, unwindset=[DIV + '.0:4', DIV + '.1:4'], diff=False, nodiff_reason='DecodeSymbols is cut by a stub on the model side only', timeout=900, mem_gb=20, fill_bound=14,
